@@ -82,6 +82,9 @@ def gen_template(rng):
         # values that an in-place normalisation would change: negative imaginary parts, negative zero, negative entries
         lines.append("complex array C =\n    1-2j, 0.5+0.5j\n    -1j, 3-0.25j")
         lines.append(rng.choice(["Interferometer(C) | [0, 1]", "Kgate(U=C) | 1", "Interferometer(C, l=[1, 2]) | [0, 1]"]))
+    if rng.random() < 0.3:
+        lines.append("float array Uw[2, 2] =\n    {Uw}")
+        lines.append(rng.choice(["Rgate(Uw[1]) | 0", "Dgate(Uw[0], phi=Uw[3]) | 1"]))      # (a whole symbolic array as an argument cannot be serialised)
     if rng.random() < 0.4:
         # measured-register arguments: the transform objects are mutable (regrefs list) and must be copied with the program
         lines.append("MeasureX | 0")
@@ -148,6 +151,8 @@ def run_sequence(rng, impl, text, pars):
     instances = []
     inst_snaps = []
     returned = []
+    shared_value = np.array([[1.0, 2.0], [3.0, 4.5]])
+    shared_before = shared_value.copy()
     calls = []
     for step in range(rng.randint(2, 7)):
         op = rng.choice(["dumps", "call", "digraph", "match", "attrs", "call", "digraph"])
@@ -159,6 +164,8 @@ def run_sequence(rng, impl, text, pars):
                     blackbird.dumps(i)
             elif op == "call":
                 vals = {p: rng.choice([0.25, 1.5, 2, -0.75, 3.125]) for p in pars}
+                if "{Uw}" in text:
+                    vals["Uw"] = shared_value        # the caller hands the very same array object to every call
                 inst = t(**vals)
                 instances.append(inst)
                 inst_snaps.append(snapshot(inst))
@@ -197,6 +204,8 @@ def run_sequence(rng, impl, text, pars):
     # (graphs share argument lists with the program by design: the property speaks of instances only)
     for k, victim in enumerate(instances):
         mutate_everything(victim, rng)
+        if not np.array_equal(shared_value, shared_before):
+            return "modifying a returned instance altered the array the caller passed as a parameter value (calls %s)" % calls, calls
         now = snapshot(t)
         if now[0] != snap_t[0] or now[1] != snap_t[1]:
             return "modifying a returned %s altered the template (calls %s)" % ("instance" if k < len(instances) else "graph", calls), calls
